@@ -60,13 +60,13 @@ package align
 //@ func (SeqBag).AutoAlphabet
 //@   props C03
 //@   trusted both implementations run (*seqbag).AutoAlphabet, which only assigns the alphabet field a valid code
-//@   requires recv != nil
+//@   requires recv != nil && rowsok(recv)
 //@   ensures recv.alphabet == AMINOACIDS || recv.alphabet == NUCLEOTIDS || recv.alphabet == UNKNOWN
 //@   modifies field(seqbag.alphabet)
 //@ func (SeqBag).SetAlphabet
 //@   props C03
 //@   trusted both implementations run (*seqbag).SetAlphabet, which only assigns the alphabet field NUCLEOTIDS or AMINOACIDS
-//@   requires recv != nil
+//@   requires recv != nil && rowsok(recv)
 //@   ensures recv.alphabet == old(recv.alphabet) || recv.alphabet == AMINOACIDS || recv.alphabet == NUCLEOTIDS
 //@   modifies field(seqbag.alphabet)
 
@@ -84,24 +84,42 @@ package align
 //@   modifies nothing
 
 //@ func (*seqbag).DetectAlphabet
-//@   props C03 C05
-//@   trusted iterates over the rows with a closure passed to IterateChar (closure calls are not inlined by the generator); it only reads the residues
-//@   requires sb != nil
+//@   props C03 C05 C01
+//@   requires sb != nil && rowsok(sb)
 //@   ensures alphabet == AMINOACIDS || alphabet == NUCLEOTIDS || alphabet == BOTH || alphabet == UNKNOWN
-// (C05b, same trust) "nucleotide" is answered only when every residue is a nucleotide symbol (isnt stays true only through the couldbent cases)
+// "nucleotide" is answered only when every residue is a nucleotide symbol, "amino acid" only when every residue is an amino-acid symbol
 //@   ensures alphabet == NUCLEOTIDS || alphabet == BOTH ==> forall r, k :: 0 <= r && r < nrows(sb) && 0 <= k && k < rowlen(sb, r) ==> ntsym(up8(cell(sb, r, k)))
+//@   ensures alphabet == AMINOACIDS || alphabet == BOTH ==> forall r, k :: 0 <= r && r < nrows(sb) && 0 <= k && k < rowlen(sb, r) ==> aasym(up8(cell(sb, r, k)))
 //@   modifies nothing
+// IterateChar is inlined (its loop gets the invariants below), the function literal is inlined at the call inside it
+//@   loop 1 in (*seqbag).IterateChar
+//@     invariant stop == false
+//@     invariant isnt ==> (forall r, k :: 0 <= r && r < $i && 0 <= k && k < rowlen(sb, r) ==> ntsym(up8(cell(sb, r, k))))
+//@     invariant isaa ==> (forall r, k :: 0 <= r && r < $i && 0 <= k && k < rowlen(sb, r) ==> aasym(up8(cell(sb, r, k))))
+//@     decreases nrows(sb) - $i
+
+//@ func (*seqbag).DetectAlphabet$1
+//@   props C03 C05 C01
+//@   inline
+//@   ensures result == false
+//@   ensures isnt ==> (forall k :: 0 <= k && k < len(seq) ==> ntsym(up8(seq[k])))
+//@   ensures isaa ==> (forall k :: 0 <= k && k < len(seq) ==> aasym(up8(seq[k])))
+//@   modifies nothing
+//@   loop 1
+//@     invariant isnt ==> entry(isnt) && (forall k :: 0 <= k && k < $i ==> ntsym(up8(seq[k])))
+//@     invariant isaa ==> entry(isaa) && (forall k :: 0 <= k && k < $i ==> aasym(up8(seq[k])))
+//@     decreases len(seq) - $i
 
 //@ func (*seqbag).AutoAlphabet
 //@   props C03 C01 C05
-//@   requires sb != nil
+//@   requires sb != nil && rowsok(sb)
 //@   ensures sb.alphabet == AMINOACIDS || sb.alphabet == NUCLEOTIDS || sb.alphabet == UNKNOWN
 //@   ensures sb.alphabet == NUCLEOTIDS ==> forall r, k :: 0 <= r && r < nrows(sb) && 0 <= k && k < rowlen(sb, r) ==> ntsym(up8(cell(sb, r, k)))
 //@   modifies sb.alphabet
 
 //@ func (*seqbag).SetAlphabet
 //@   props C03 C01
-//@   requires sb != nil
+//@   requires sb != nil && rowsok(sb)
 //@   ensures sb.alphabet == old(sb.alphabet) || sb.alphabet == AMINOACIDS || sb.alphabet == NUCLEOTIDS
 //@   ensures err == nil ==> sb.alphabet == AMINOACIDS || sb.alphabet == NUCLEOTIDS
 //@   modifies sb.alphabet
